@@ -24,6 +24,27 @@ reg(
 )
 
 reg(
+    "C01", "exploration",
+    "history + reference model: rail-action wrappers, recording LLM and generate() results on one logical clock, judged by a sequential rails model",
+    "~1000 (thorough ~7500) generated conversations: ALL verdict matrices {accept,reject,rewrite}^(k*turns) for k<=2, turns<=2 on the four v1 pipelines (3-step dialog, single-call, general, passthrough) and all accept/reject matrices on the v2 guardrails library, plus sampled k<=4 / 4 turns / three rail-flow shapes / rail exceptions. Per turn: rails called in configured order with the current text, none after a reject, no LLM call of the turn stamped before the last rail or after a reject, reply = the rejecting rail's refusal / exception message, and (v1) no prompt of the turn - nor of later turns - contains the original token once a rail rewrote the text.",
+    "trusts the 20-line sequential model, the prompt-keyed fake LLM and harness-registered rail actions; LLM-driven library rails and third-party rails are not exercised",
+    "DESIGN.md §3 C01",
+)
+reg(
+    "C02", "exploration",
+    "history + reference model on the bot text, re-evaluated on every later turn of the conversation",
+    "~950 (thorough ~7500) conversations: ALL output verdict matrices for m=1 x 3 turns and m=2 x 2 turns on four v1 pipelines, all accept/reject matrices m<=2 x 3 turns on v2, plus sampled mixes of predefined-message and LLM turns. Every LLM-originated text (unique token) must be shown to all output rails in order in that turn, a rejected text never returned, a rewritten one returned rewritten - on every turn, including all turns after a reject/rewrite.",
+    "as C01; output-rail verdicts are functions of the text shown and accept refusals/predefined texts",
+    "DESIGN.md §3 C02",
+)
+reg(
+    "C03", "fault_enumeration",
+    "failpoints inside the registered actions at every call index of each conversation (pairs in thorough), judged by the C01/C02 model on the following turns",
+    "For ~85 (thorough ~820) generated conversations whose turns replay the same verdict vector, EVERY custom-action call index of the fault-free run is faulted once (input rail, output rail, dialog action; v1 four pipelines and v2): generate must return a well-formed message, never the turn's LLM token after a rail fault, only a refusal or the internal-error text; the next turns must satisfy the full C01/C02 model.",
+    "the fault-free call count comes from the sequential model (a failpoint never reached makes the case inconclusive, not held); LLM provider failures are excluded by the property",
+    "DESIGN.md §3 C03",
+)
+reg(
     "C04", "exploration",
     "differential runtime monitor (marker vs. executable matching spec) + icontract post-condition on the real recursive scoring function",
     "20k (thorough 300k) generated (pattern, payload) pairs near the decision boundary (payload = instance of the pattern edited by add/drop/reorder/alter), through the real parser and interpreter; the marker after `match E(p=<pattern>)` must be emitted iff the 25-line spec says so, and an icontract post-condition judges every recursive call of _compute_arguments_dict_matching_score made for the test event (inner scores that cancel out are still caught). Instance clause: reference matches on two actions / two flow instances in all arrival orders. Held on the executions observed.",
